@@ -12,7 +12,7 @@ THEOREMS = ["C07_conversion_passes_through", "C07_other_sections_exact", "C07_pa
 GEN_UNIT_POST = {"Requires", "After", "BindsTo", "Before", "Wants", "RequiresMountsFor", "SourcePath"}
 GEN_UNIT_PRE = {"After", "Wants"}
 GEN_SERVICE_POST = {"Environment", "Delegate", "Type", "NotifyAccess", "ExecStart", "ExecStartPre", "ExecStop", "ExecStopPost", "WorkingDirectory", "Restart", "PIDFile"}
-MANAGED = {"KillMode", "Type", "NotifyAccess", "SyslogIdentifier", "RemainAfterExit"}     # written with set(): only when the user made no (non-empty) choice
+MANAGED = {"KillMode", "Type", "NotifyAccess", "SyslogIdentifier", "RemainAfterExit", "WorkingDirectory"}     # written with set(): only when the user made no (non-empty) choice
 
 
 SECTION_CONST = {"UNIT_SECTION": "Unit", "SERVICE_SECTION": "Service", "INSTALL_SECTION": "Install", "QUADLET_SECTION": "Quadlet"}
@@ -117,8 +117,8 @@ def permitted_choice(typ, key, vals):
         return typ in ("container", "kube") and last in ("mixed", "control-group")
     if key == "Type":
         return typ in ("container", "kube") and last == "oneshot"
-    if key in ("SyslogIdentifier", "RemainAfterExit"):
-        return True
+    if key in ("SyslogIdentifier", "RemainAfterExit", "WorkingDirectory"):
+        return True          # any non-empty value
     return False
 
 
@@ -191,7 +191,9 @@ def run(ctx):
         if rng.random() < 0.1:
             text += "[X-%s]\nUser=entry\n" % docs.TYPES[typ][0]
         if typ == "kube" and rng.random() < 0.3:
-            text = text.replace("[Kube]\n", "[Kube]\nSetWorkingDirectory=yaml\n", 1)
+            text = text.replace("[Kube]\n", "[Kube]\nSetWorkingDirectory=%s\n" % rng.choice(["yaml", "unit"]), 1)
+        if typ == "build" and rng.random() < 0.4:
+            text = text.replace("[Build]\n", "[Build]\nSetWorkingDirectory=%s\n" % rng.choice(["file", "unit", "./ctx", "ctx/sub", "/abs/ctx", "https://example.com/r.git"]), 1)
         work.append((typ, "/d/u.%s" % typ, text))
     conv_cases = [case_line("convert", "0", p, t) for _, p, t in work]
     outs = vlib.run_impl(conv_cases)
